@@ -16,6 +16,7 @@ TRUSTED_BASE = ["Model/Command.v + Model/Shlex.v hand-written (build_command_lis
                 "validated by correspondence"]
 ASSUMPTIONS = ["ASCII command lines", "float arguments are compared as float(token)/warp computed by the harness from the token "
                "the model kept"]
+EXTRA_VO = ["Proofs/CommandTie.vo"]
 
 COMMANDS = ["key", "kdown", "keydown", "kup", "keyup", "move", "mousemove", "click", "mdown", "mousedown", "mup", "mouseup",
             "type", "typefile", "pastefile", "capture", "expect", "rcapture", "rexpect", "pause", "sleep", "drag"]
